@@ -1084,6 +1084,29 @@ def model_step_cases(rng, n):
             lz, af, de = rng.randrange(2), rng.randrange(2), rng.choice([32, 32, ord('T'), ord('S')])
             out.append(L.hs_case('full', qtype=q2, uid=0, lazy=lz, downenc=de, seed=rng.randrange(1 << 31), arg=2 * af,
                                  items=honest_full(q2, lz, af, de)))
+        elif kind == 7 and rng.randrange(2):   # the raw-UDP attempt: address reply, then what arrives after each raw login
+            import hashlib
+            seed = rng.choice([0, 1, 5, 0x7fffffff, -0x80000000, -1, rng.randrange(1 << 31)])
+            uid = rng.randrange(16)
+            blk = bytearray((b'sesame' + bytes(32))[:32])
+            sm = (seed - 1) & 0xffffffff
+            for i in range(32):
+                blk[i] ^= (sm >> (8 * (3 - i % 4))) & 255
+            good = bytes([0x10, 0xd1, 0x9e, 0x10 | uid]) + hashlib.md5(bytes(blk)).digest() + bytes(rng.randrange(256) for _ in range(rng.choice([0, 0, 3])))
+            junk = [('', bytes(rng.randrange(256) for _ in range(rng.choice([0, 3, 19, 20, 40])))), ('', good[:19]), ('', good[:4] + bytes(16)),
+                    ('', b'\x10\xd1\x9e\x20' + good[4:]), 'T', ('', L.data_reply(0, ord('i'), L.T_NULL, b'I\x7f\x00\x00\x01'))]
+            addr = rng.choice([b'I\x7f\x00\x00\x01', b'I' + bytes(16), b'I\x7f\x00\x00', b'J\x7f\x00\x00\x01', b'I\x7f\x00\x00\x01'])
+            pre = [filler(ord('i')) for _ in range(rng.randrange(3))]
+            mid = [rng.choice(junk) for _ in range(rng.choice([0, 0, 1, 3, 4, 5]))]
+            items = pre + [('@', L.data_reply(0, ord('i'), L.T_NULL, addr))] + mid + [('', good)] + ['T'] * 5
+            if rng.randrange(3):
+                out.append(L.hs_case('rawudp', qtype=10, uid=uid, lazy=1, downenc=32, seed=seed, items=items))
+            else:
+                # the whole handshake with the raw attempt: version reply carrying this seed and user id, a login that succeeds
+                sb = (seed & 0xffffffff).to_bytes(4, 'big')
+                full = [('=', L.data_reply(0, ord('v'), L.T_NULL, b'VACK' + sb + bytes([uid]))),
+                        ('=', L.data_reply(0, ord('l'), L.T_NULL, b'10.0.0.1-10.0.0.2-1130-27'))] + items
+                out.append(L.hs_case('full', qtype=10, uid=0, lazy=rng.randrange(2), downenc=32, seed=0, arg=1 + 2 * rng.randrange(2), items=full + honest_full(10, 1, 0, 32)[2:]))
         elif kind == 7:    # login replies
             good = rng.choice([b'10.0.0.1-10.0.0.2-1130-27', b'192.168.99.1-192.168.99.7-200-30', b'10.0.0.1-10.0.0.2-1501-27', b'LNAK', b'BADIP',
                                b'10.0.0.1-10.0.0.2-1130-33', b'10.0.0.1-10.0.0.2-1130', b'1.2.3.4-5.6.7.8-1500-8\0trailing', b'a-b-1-2'])
@@ -1426,7 +1449,7 @@ def check(rep):
         'gcc 12 -O1 -fsanitize=address,undefined (ASan halts; UBSan recovers in the handshake builds so that all reports are collected)',
         'zlib contract: compress2 with *destLen = 64K reports at most 64K (hypothesis of C06_state_bounds)',
         'handshake functions of client.c: the retry / time-out sequencing of the steps built on handshake_waitdns is modelled (coq/Handshake.v) and '
-        'compared on scripted replies; handshake_login, the raw-UDP login and client_handshake as a whole are observed by sanitizers only']
+        'compared on scripted replies (all steps, handshake_login, handshake_raw_udp, client_handshake); their buffer handling is observed by sanitizers only']
     for key in findings.order:
         what, replay = findings.items[key]
         if replay.get('driver', '').startswith('hf') and key.startswith(('ubsan:', 'asan:')) and replay.get('case'):
